@@ -59,7 +59,7 @@ def run_one(params: dict, chooser) -> dict:
         # the explored dimension is *where the user call lands*: it may be held and released at any boundary; network
         # events keep their default order in quick (thorough also reorders / delays them)
         extra = {} if params.get('net_dev') else {'early': False, 'reorder': False, 'hold_kinds': {'op'}}
-        tw = TransferWorld(base_dir=base, horizon=200.0, chooser=chooser, op_anywhere=True, **extra,
+        tw = TransferWorld(base_dir=base, horizon=200.0, chooser=chooser, op_anywhere=True, op_dedup=True, **extra,
                            settings={'network': {'peer': {'connect_mode': params.get('mode', 'race')}},
                                      'transfers': {'report_interval': 30.0}})
         try:
@@ -157,6 +157,13 @@ def run_one(params: dict, chooser) -> dict:
                         snap_upfail.append(world.now())
                 world.post(EnvEvent('inject', 'peer-upload-failed', upfail, chan=None,
                                     guard=lambda: bob.p_conn() is not None))
+            elif trig == 'peer-offers':
+                # the peer connects to us and offers the file although our queue request never reached it: the
+                # remote-queue attempt and the initialisation are in flight together
+                def offers():
+                    bob.offer(PATHS[0])
+                world.post(EnvEvent('inject', 'peer-offers', offers, chan=None,
+                                    guard=lambda: any(c[1] == BOB[1] for c in tw.cw.net.connect_log)))
             world.state_fn = lambda: (
                 tuple((t.state.VALUE.name, t.remotely_queued) for t in transfers), 't' in snap,
                 tuple(sorted(ev.key for ev in world.pending)),
@@ -240,7 +247,13 @@ def scenarios(tier: str):
         for direct in ('fast', 'hang', 'refuse'):
             for indirect in ('pierce', 'silence'):
                 for action in ('abort', 'pause', 'remove'):
-                    for trig in (None, 'status', 'upload-failed'):
+                    for trig in (None, 'status', 'upload-failed', 'peer-offers'):
+                        if trig == 'peer-offers' and (direct != 'hang' or n != 1):
+                            continue
+                        if tier == 'quick' and trig == 'peer-offers':
+                            if indirect == 'silence' and action in ('abort', 'pause'):
+                                out.append({'n': n, 'direct': direct, 'indirect': indirect, 'action': action, 'trigger': trig})
+                            continue
                         if tier == 'quick':
                             # quick: every (direct, indirect) pair with abort; pause / remove and the extra-cycle
                             # triggers on the two shapes that differ most (fast+silence, hang+pierce)
@@ -251,7 +264,7 @@ def scenarios(tier: str):
                                 continue
                             if n == 2 and (direct != 'hang' or action != 'abort'):
                                 continue
-                            if n == 1 and trig == 'upload-failed' and action != 'abort':
+                            if n == 1 and trig is not None and action != 'abort':
                                 continue
                         out.append({'n': n, 'direct': direct, 'indirect': indirect, 'action': action, 'trigger': trig})
                         if tier != 'quick' and trig is None:
